@@ -213,6 +213,8 @@ class SList:
             return SList([(g, k) for k, g in sorted(it.d.items(), key=lambda kv: repr(kv[0]))])
         if isinstance(it, GList):
             return SList(list(zip(it.guards, list(it))))
+        if hasattr(it, "drain"):
+            return it.drain()
         return SList([(True, x) for x in it])
 
     def is_concrete(self):
@@ -226,6 +228,57 @@ class SList:
 
     def __repr__(self):
         return "SList[" + ", ".join(f"{x}:{g}" for g, x in self.items) + "]"
+
+
+class SymCount:
+    """Number of present elements of a guarded collection; supports comparison with a concrete int."""
+
+    def __init__(self, guards):
+        self.gs = [g for g in guards if is_sym(g) or g]
+
+    def eq(self, n):
+        if not isinstance(n, int):
+            raise Unsupported("comparison of a symbolic count with a non-integer")
+        fixed = sum(1 for g in self.gs if not is_sym(g))
+        sym = [g for g in self.gs if is_sym(g)]
+        k = n - fixed
+        if k < 0 or k > len(sym):
+            return False
+        if not sym:
+            return k == 0
+        return z3.And(z3.AtMost(*sym, k), z3.AtLeast(*sym, k))
+
+    def ge(self, n):
+        fixed = sum(1 for g in self.gs if not is_sym(g))
+        sym = [g for g in self.gs if is_sym(g)]
+        k = n - fixed
+        if k <= 0:
+            return True
+        if k > len(sym):
+            return False
+        return z3.AtLeast(*sym, k)
+
+    def __truth_guard__(self):
+        return self.ge(1)
+
+    def __bool__(self):
+        raise Unsupported("symbolic count used concretely")
+
+
+class GDict:
+    """A dict built by a comprehension over a guarded collection: entries present under guards (distinct keys)."""
+
+    def __init__(self, entries):
+        self.entries = [(g, k, v) for g, k, v in entries if is_sym(g) or g]
+
+    def items(self):
+        return SList([(g, (k, v)) for g, k, v in self.entries])
+
+    def keys(self):
+        return SList([(g, k) for g, k, _ in self.entries])
+
+    def values(self):
+        return SList([(g, v) for g, _, v in self.entries])
 
 
 def merge(c, a, b):
